@@ -73,36 +73,43 @@ theorem eff_lastBlock {s s' : St} (h : Eff s s') (hl : s.lastBlock ≤ s.block) 
 
 theorem claimBase_reward {s : St} {c orig : Nat} {pays : List Pay} {m : ClaimMid}
     (h : claimBase s c orig pays = some m) :
-    ∃ p first tok, pays.head? = some p ∧ posOf s.md p.1 = some first ∧ first.intoPart p.2 = some tok ∧
+    ∃ p first tok r, pays.head? = some p ∧ posOf s.md p.1 = some first ∧ first.intoPart p.2 = some tok ∧
+      claimBoostedYields (genSt s) orig ((genSt s).userTotal orig) = some r ∧ m.boosted = r.2.2 ∧
+      m.w1 = r.1 ∧ m.b1 = r.2.1 ∧
       m.base = baseReward (genCache s s.cache) s.dsc p.2 tok ∧
       mergeParts s.md ⟨(genCache s s.cache).rps, tok.compounded, tok.amount, orig⟩ pays.tail = some m.merged ∧
       m.s1 = genSt s ∧ m.c1 = genCache s s.cache := by
   simp only [claimBase, Option.bind_eq_bind, Option.bind_eq_some_iff, req_eq_some,
     Option.pure_def, Option.some.injEq] at h
-  obtain ⟨hold0, _, _, _, p, hp, first, hf, ⟨s1, c1⟩, hg, tok, ht, r, _, ut1, _, merged, hm, rfl⟩ := h
+  obtain ⟨hold0, _, _, _, p, hp, first, hf, ⟨s1, c1⟩, hg, tok, ht, r, hr, ut1, _, merged, hm, rfl⟩ := h
   obtain ⟨ha, hc, rfl, rfl⟩ := generate_spec hg
-  exact ⟨p, first, tok, hp, hf, ht, rfl, hm, rfl, rfl⟩
+  exact ⟨p, first, tok, r, hp, hf, ht, hr, rfl, rfl, rfl, rfl, hm, rfl, rfl⟩
 
 /-- `claimRewards` (all variants): the reward is the base formula on the part sent, evaluated at
     the index AFTER settling, plus the boosted rewards of the original caller; the new position
     carries the current index -/
 theorem claimCore_reward {s s' : St} {c orig : Nat} {pays : List Pay} {nv : Option Nat} {o : Out}
     (h : claimCore s c orig pays nv = some (s', o)) :
-    ∃ p first tok boosted merged, pays.head? = some p ∧ posOf s.md p.1 = some first ∧
+    ∃ p first tok r merged, pays.head? = some p ∧ posOf s.md p.1 = some first ∧
       first.intoPart p.2 = some tok ∧
-      o.c = (if tok.rps < s'.rps then p.2 * (s'.rps - tok.rps) / s'.dsc else 0) + boosted ∧
+      claimBoostedYields (genSt s) orig ((genSt s).userTotal orig) = some r ∧
+      o.c = (if tok.rps < s'.rps then p.2 * (s'.rps - tok.rps) / s'.dsc else 0) + r.2.2 ∧
+      s'.paidBase = s.paidBase + (if tok.rps < s'.rps then p.2 * (s'.rps - tok.rps) / s'.dsc else 0) ∧
+      s'.paidBoosted = s.paidBoosted + r.2.2 ∧
       mergeParts s.md ⟨s'.rps, tok.compounded, tok.amount, orig⟩ pays.tail = some merged ∧
       s'.md (s.nonce + 1) = some (.pos { merged with amount := nv.getD merged.amount }) ∧
       s'.nonce = s.nonce + 1 ∧ o.a = s.nonce + 1 ∧ o.b = nv.getD merged.amount ∧
       s'.hold c (s.nonce + 1) = nv.getD merged.amount := by
   simp only [claimCore, Option.bind_eq_bind, Option.bind_eq_some_iff] at h
   obtain ⟨m, hm, h⟩ := h
-  obtain ⟨p, first, tok, hp, hf, ht, hb, hmerged, e1, e2⟩ := claimBase_reward hm
+  obtain ⟨p, first, tok, r, hp, hf, ht, hr, hbo, _, _, hb, hmerged, e1, e2⟩ := claimBase_reward hm
   simp only [claimFinish, Option.bind_eq_bind, Option.bind_eq_some_iff, req_eq_some,
     sub?_eq_some, Option.pure_def, Option.some.injEq, Prod.mk.injEq] at h
   obtain ⟨res1, _, sup1, _, ut2, _, _, _, w2, _, bal1, _, rfl, rfl⟩ := h
-  refine ⟨p, first, tok, m.boosted, m.merged, hp, hf, ht, ?_, ?_, ?_, ?_, ?_, ?_, ?_⟩
-  · simp only [hb, e1, e2, baseReward, genSt_dsc]
+  refine ⟨p, first, tok, r, m.merged, hp, hf, ht, hr, ?_, ?_, ?_, ?_, ?_, ?_, ?_, ?_, ?_⟩
+  · simp only [hb, hbo, e1, e2, baseReward, genSt_dsc]
+  · simp only [hb, e1, e2, baseReward, genSt_dsc, genSt_paidBase]
+  · simp only [hbo, e1, genSt_paidBoosted]
   · simp only [e2]; exact hmerged
   · simp only [e1, genSt_md, genSt_nonce, upd_same]
   · simp only [e1, genSt_nonce]
@@ -113,29 +120,35 @@ theorem claimCore_reward {s s' : St} {c orig : Nat} {pays : List Pay} {nv : Opti
 /-- `unstakeFarm` (both variants): same reward formula on the part taken out -/
 theorem unstakeCore_reward {s s' : St} {c orig : Nat} {pay : Pay} {x : Option Nat} {o : Out}
     (h : unstakeCore s c orig pay x = some (s', o)) :
-    ∃ attrs tok boosted, posOf s.md pay.1 = some attrs ∧ attrs.intoPart pay.2 = some tok ∧
-      o.c = (if tok.rps < s'.rps then pay.2 * (s'.rps - tok.rps) / s'.dsc else 0) + boosted := by
+    ∃ attrs tok r, posOf s.md pay.1 = some attrs ∧ attrs.intoPart pay.2 = some tok ∧
+      claimBoostedYields (genSt s) orig ((genSt s).userTotal orig) = some r ∧
+      o.c = (if tok.rps < s'.rps then pay.2 * (s'.rps - tok.rps) / s'.dsc else 0) + r.2.2 ∧
+      s'.paidBase = s.paidBase + (if tok.rps < s'.rps then pay.2 * (s'.rps - tok.rps) / s'.dsc else 0) := by
   cases x <;>
   · simp only [unstakeCore, Option.bind_eq_bind, Option.bind_eq_some_iff, req_eq_some,
       sub?_eq_some, Option.pure_def, Option.some.injEq, Prod.mk.injEq] at h
-    obtain ⟨_, _, hold0, _, _, _, attrs, ha', ⟨s1, c1⟩, hg, tok, htok, r, _, res1, _,
+    obtain ⟨_, _, hold0, _, _, _, attrs, ha', ⟨s1, c1⟩, hg, tok, htok, r, hr, res1, _,
       sup1, _, w2, _, bal1, _, rfl, rfl⟩ := h
     obtain ⟨ha, hc, rfl, rfl⟩ := generate_spec hg
-    exact ⟨attrs, tok, r.2.2, ha', htok, by simp only [baseReward, genSt_dsc]⟩
+    exact ⟨attrs, tok, r, ha', htok, hr, by simp only [baseReward, genSt_dsc],
+      by simp only [baseReward, genSt_dsc, genSt_paidBase]⟩
 
 /-- `compoundRewards`: the same reward, added to the position instead of being paid -/
 theorem compound_reward {s s' : St} {c : Nat} {pays : List Pay} {o : Out}
     (h : compound s c pays = some (s', o)) :
-    ∃ p first tok boosted, pays.head? = some p ∧ posOf s.md p.1 = some first ∧
+    ∃ p first tok r, pays.head? = some p ∧ posOf s.md p.1 = some first ∧
       first.intoPart p.2 = some tok ∧
-      o.c = (if tok.rps < s'.rps then p.2 * (s'.rps - tok.rps) / s'.dsc else 0) + boosted ∧
+      claimBoostedYields (genSt s) c ((genSt s).userTotal c) = some r ∧
+      o.c = (if tok.rps < s'.rps then p.2 * (s'.rps - tok.rps) / s'.dsc else 0) + r.2.2 ∧
+      s'.paidBase = s.paidBase + (if tok.rps < s'.rps then p.2 * (s'.rps - tok.rps) / s'.dsc else 0) ∧
       s'.supply = s.supply + o.c := by
   simp only [compound, Option.bind_eq_bind, Option.bind_eq_some_iff, req_eq_some,
     sub?_eq_some, Option.pure_def, Option.some.injEq, Prod.mk.injEq] at h
-  obtain ⟨hold0, _, _, _, p, hp, first, hf, ⟨s1, c1⟩, hg, tok, ht, r, _, res1, _, ut1, _,
+  obtain ⟨hold0, _, _, _, p, hp, first, hf, ⟨s1, c1⟩, hg, tok, ht, r, hr, res1, _, ut1, _,
     merged, _, rfl, rfl⟩ := h
   obtain ⟨ha, hc, rfl, rfl⟩ := generate_spec hg
-  exact ⟨p, first, tok, r.2.2, hp, hf, ht, by simp only [baseReward, genSt_dsc],
+  exact ⟨p, first, tok, r, hp, hf, ht, hr, by simp only [baseReward, genSt_dsc],
+    by simp only [baseReward, genSt_dsc, genSt_paidBase],
     by simp only [baseReward, genCache_supply, St.cache]⟩
 
 /-- a new position created by `stakeFarm` without merging starts at the index AFTER settling,
